@@ -1,14 +1,16 @@
 (* Props/C15.v — property C15 (cluster values are opaque labels; the cluster level changes clusters
-   and flags only), buffer part.  For every strictly increasing relabelling f of the cluster values:
-   the cluster-reading primitives commute with f.  PARTIAL: proved for merge_array / merge_clusters
-   (the only place cluster values are combined), set_cluster, the minimum and run-length scans, set_masks
-   with a relabelled range, and the streaming operations next_glyph, skip_glyph, replace_glyph,
-   copy_glyph, output_glyph; the remaining operations of the alphabet (delete_glyph, replace_glyphs,
-   merge_out_clusters, the flag calls, sort, reverse_groups, delete_glyphs_inplace) read clusters only
-   through these primitives and are covered by the operation-sequence correspondence and the paired
-   shaping search, not yet by a theorem. *)
+   and flags only), buffer part.  For every strictly increasing relabelling f of the cluster values,
+   EVERY operation of the buffer alphabet (Model/BufferOps.v: all 25 operations incl. the flag calls,
+   delete_glyph, replace_glyphs, merge_out_clusters, sort, reverse_groups, delete_glyphs_inplace) and every
+   finite sequence of operations commutes with f (`C15_every_operation`, `C15_every_sequence`): running the
+   relabelled operations on the relabelled buffer gives the relabelled result, errors and failures included.
+   Side conditions: the cluster values in play (a set CS that C02's subset invariant preserves) and their
+   relabellings fit a u32 (U32_MAX is the sentinel of the minimum scans), infos handed to output_info carry
+   a cluster of CS, and a non-global set_masks range is not relabelled onto the global one.
+   The earlier per-primitive statements are kept.  Not covered by a theorem: cluster comparisons made
+   outside the buffer layer (shapers' syllable loops, GPOS/GSUB cluster tests) — paired shaping search. *)
 From Coq Require Import List NArith Bool Lia.
-From RB Require Import Base.Result Model.Buffer Model.BufferOps Proofs.BufferEquivP.
+From RB Require Import Base.Result Model.Buffer Model.BufferOps Proofs.BufferP Proofs.BufferEquivP Proofs.BufferEquivAllP.
 Import ListNotations.
 Local Open Scope N_scope.
 
@@ -66,6 +68,41 @@ Theorem C15_output_glyph : forall f b g,
   output_glyph (rlb f b) g = match output_glyph b g with Ok b' => Ok (rlb f b') | Error e => Error e end.
 Proof. exact output_glyph_equiv. Qed.
 Print Assumptions C15_output_glyph.
+
+(* every operation of the alphabet *)
+Theorem C15_every_operation : forall (f : N -> N), strictly_increasing f ->
+  forall (CS : list N), (forall c, In c CS -> c <= U32_MAX /\ f c <= U32_MAX) ->
+  forall b o, rl_ok f CS o -> Inv CS b -> step (rlb f b) (rl_op f o) = lift_step f (step b o).
+Proof. exact step_equiv. Qed.
+Print Assumptions C15_every_operation.
+
+(* every finite sequence of operations *)
+Theorem C15_every_sequence : forall (f : N -> N), strictly_increasing f ->
+  forall (CS : list N), (forall c, In c CS -> c <= U32_MAX /\ f c <= U32_MAX) ->
+  forall ops b, Forall (rl_ok f CS) ops -> Inv CS b -> run (rlb f b) (map (rl_op f) ops) = lift_run f (run b ops).
+Proof. exact run_equiv. Qed.
+Print Assumptions C15_every_sequence.
+
+(* the hypotheses are met: f c = 3c + 7, CS = {0,1,2,5}; a sequence through both modes with a flag call,
+   a level-independent merge, a sort, a ranged set_masks and an in-place deletion; both sides computed *)
+Definition c15_f (c : N) : N := 3 * c + 7.
+Definition c15_cs : list N := [0; 1; 2; 5].
+Definition c15_buf : zbuf := init_buf [mkInfo 1 0 0 3 0; mkInfo 2 0 1 2 0; mkInfo 3 0 2 1 0; mkInfo 4 0 5 0 0] 1 3.
+Definition c15_ops : list bop :=
+  [OClearOutput; ONextGlyph; OReplaceGlyphs 1 [7; 8]; OUnsafeToBreakOut (Some 0%nat) (Some 3%nat); OOutputInfo (mkInfo 9 0 2 0 0);
+   ONextGlyph; OSync; OMergeClusters 1 3; OSort 0 4; OSetMasks 1 1 0 2; ODeleteInplace; OReverse].
+Example C15_every_sequence_example :
+  strictly_increasing c15_f /\ (forall c, In c c15_cs -> c <= U32_MAX /\ c15_f c <= U32_MAX) /\
+  Forall (rl_ok c15_f c15_cs) c15_ops /\ Inv c15_cs c15_buf /\
+  match run c15_buf c15_ops with Ok (Some b) => map cluster (arr b) <> [] | _ => False end /\
+  run (rlb c15_f c15_buf) (map (rl_op c15_f) c15_ops) = lift_run c15_f (run c15_buf c15_ops).
+Proof.
+  split; [intros a b H; unfold c15_f; lia|].
+  split; [intros c Hc; unfold c15_cs, c15_f in *; cbn in Hc; unfold U32_MAX; repeat (destruct Hc as [<-|Hc]; [split; vm_compute; discriminate|]); destruct Hc|].
+  split; [unfold c15_ops; repeat (apply Forall_cons; [first [exact I | (right; vm_compute; discriminate) | (cbn; auto 10)]|]); apply Forall_nil|].
+  split; [split; cbn [c15_buf init_buf pre rest]; repeat (apply Forall_cons; [unfold okc; cbn; auto 10|]); apply Forall_nil|].
+  split; [vm_compute; discriminate|vm_compute; reflexivity].
+Qed.
 
 (* non-vacuity: f c = 3c + 7 is strictly increasing; a merge over clusters 0 2 5 relabels to 7 13 22 *)
 Example C15_example :
